@@ -253,6 +253,22 @@ theorem kept_constraints (tn : String) (refl : Bool) (s : Schema) (ops : List Ba
     simp only [State.newSchema, List.mem_map]
     exact ⟨c, List.mem_filter.mpr ⟨hmem, by simp [hk]⟩, rfl⟩
 
+/-- **C10.schema (textual CHECK constraints).**  A named CHECK constraint whose SQL is a `text()` clause — every reflected CHECK, every
+CHECK given as a string — has no column objects (`cols = []`).  For every table and every accepted operation sequence that does not name it,
+it is carried into the new table with its text unchanged, **whatever its text is and whichever columns the batch drops or renames**: in
+particular a CHECK whose SQL merely *contains* the name of a dropped column as a substring (`min_qty > 0` when `qty` is dropped) is kept.
+(Whether SQLite then accepts the new table is decided from the identifiers the text mentions, `Const.mentions`, tokenised by the harness —
+never by substring.) -/
+theorem kept_textual_check (tn : String) (refl : Bool) (s : Schema) (ops : List BatchOp) (pr : List (List String)) (sl : String)
+    (st : State) (c : Const) (n : String)
+    (hc : c ∈ tableConstraints s) (hn : c.name = some n) (hk : c.kind = .check) (htext : c.cols = [])
+    (huniq : ∀ c' ∈ tableConstraints s, c'.name = some n → c' = c)
+    (hops : ∀ o ∈ ops, mentionsConst n o = false)
+    (hok : (State.init tn refl s pr sl).applyOps ops = .ok st) :
+    ∃ c' ∈ st.newSchema.checks, c'.name = c.name ∧ c'.text = c.text ∧ c'.mentions = c.mentions := by
+  have h := kept_constraints tn refl s ops pr sl st c n hc hn huniq (by rw [htext]; intro k hk'; cases hk') hops hok
+  exact ⟨st.mapCols c, h.2.2.1 hk, rfl, rfl, rfl⟩
+
 /-- the table's own `PrimaryKeyConstraint` object (every SQLAlchemy `Table` has one, possibly empty) -/
 def tablePk (s : Schema) : Const :=
   match s.pk with
@@ -354,7 +370,39 @@ theorem kept_indexes (tn : String) (refl : Bool) (s : Schema) (ops : List BatchO
       exact .inl ⟨(k', ix), hm, rfl⟩
     · cases hg
 
+/-! ## CHECK evaluation and column affinity -/
+
+/-- On a column whose declared type does not have TEXT affinity the affinity-aware evaluation of a `col op k` predicate (CHECK constraints,
+partial-index predicates) is the plain numeric one; on every column a NULL satisfies it. -/
+theorem evalPredCol_non_text (ty : String) (p : Pred) (v : Value) (h : textAffinity ty = false) :
+    evalPredCol ty p v = evalPred p v := by
+  simp [evalPredCol, h]
+
+theorem evalPredCol_null (ty : String) (p : Pred) : evalPredCol ty p .null = true := by
+  unfold evalPredCol
+  split <;> simp [evalPred]
+
 /-! ## non-vacuity -/
+
+/-- `kept_textual_check` on a CHECK whose text contains a dropped column's name as a substring: `min_qty > 0` survives `drop_column('qty')` -/
+def w_s4 : Schema :=
+  { cols := [{ name := "id", ty := "INTEGER", aff := "Integer", nullable := false, default := none, dval := .null, pk := true },
+             { name := "qty", ty := "INTEGER", aff := "Integer", nullable := true, default := none, dval := .null, pk := false },
+             { name := "min_qty", ty := "INTEGER", aff := "Integer", nullable := true, default := none, dval := .null, pk := false }],
+    pk := some { kind := .pk, name := none, cols := ["id"] }, uniques := [],
+    checks := [{ kind := .check, name := some "ck_min", cols := [], text := "min_qty > 0", mentions := ["min_qty"] }],
+    fks := [], indexes := [] }
+example : (∀ o ∈ [BatchOp.dropColumn "qty"], mentionsConst "ck_min" o = false) ∧
+    (((State.init "t" true w_s4).applyOps [.dropColumn "qty"]).toOption.map (fun st => st.newSchema.checks.map (·.text))) = some ["min_qty > 0"] ∧
+    (((State.init "t" true w_s4).applyOps [.dropColumn "qty"]).toOption.map (fun st => checkMentionsOk st.newSchema)) = some true := by decide
+
+/-- `evalPredCol`: INTEGER / NUMERIC / BLOB columns are not TEXT-affinity columns, VARCHAR / TEXT are; on a TEXT column `'' >= -100` is false
+(the literal is compared as text) while the numeric rule would let it pass -/
+example : textAffinity "INTEGER" = false ∧ textAffinity "NUMERIC(10, 2)" = false ∧ textAffinity "BLOB" = false ∧
+    textAffinity "VARCHAR(20)" = true ∧ textAffinity "TEXT" = true := by decide
+example : evalPredCol "TEXT" { col := "a", op := .ge, k := -100 } (.text "") = false ∧
+    evalPred { col := "a", op := .ge, k := -100 } (.text "") = true ∧
+    evalPredCol "INTEGER" { col := "a", op := .ge, k := -100 } (.int 3) = true := by decide
 
 /-- a table with a named UNIQUE, a named CHECK and a named FK next to its primary key -/
 def w_s3 : Schema :=
